@@ -49,6 +49,10 @@ def check(model: Model, rep: Report, tier: str):
     from .c07 import a9
     with rep.isolated():
         a9(model, rep, "C13.M6")
+    from .c01 import r6
+    with rep.isolated():
+        share_rule(rep, model, r6, "C13.M7", "flattening a round re-inserts every operation through add_to_graph: an operation whose reference was dissolved goes behind the latest "
+                   "node on its channels (not to the root), so the single ancilla measurement of a 0-round block stays behind that block's heralding measurement (= C01.R6)")
     rep.rules_text["C13.M6"] = ("every round of the multi-round circuit is unrolled and flattened before it is nested: apply_modifiers / flatten hand back the SAME structure object "
                                 "the round's measurements index (= C07.A9) -- a rebuilt structure leaves their registries behind and the nested copies report index -1")
     with rep.isolated():
